@@ -887,6 +887,30 @@ def _h_float(x):
     return NotImplemented
 
 
+def _h_defaultdict(*a, **k):
+    if SYM_DICT[0] and len(a) == 1 and not k:
+        from .symcoll import SymDict
+
+        class SymDefaultDict(SymDict):
+            def __init__(self, factory, entries=()):
+                super().__init__(entries)
+                self.default_factory = factory
+
+            def __getitem__(self, key):
+                i = self._find(key)
+                if i < 0:
+                    v = self.default_factory()
+                    self.entries.append([key, v])
+                    return v
+                return self.entries[i][1]
+
+            def copy(self):
+                return SymDefaultDict(self.default_factory, self.entries)
+
+        return SymDefaultDict(a[0])
+    return NotImplemented
+
+
 def _h_dict(*a, **k):
     if SYM_DICT[0] and not k and len(a) <= 1:
         from .symcoll import SymDict
@@ -977,7 +1001,7 @@ def install():
     hook.INT_HANDLERS.append(_h_int)
     hook.FLOAT_HANDLERS.append(_h_float)
     hook.JOIN[0] = lambda parts: join("", parts)
-    for name, h in (("dict", _h_dict), ("chr", _h_chr), ("ord", _h_ord), ("len", _h_len), ("bytes", _h_bytes), ("bytearray", _h_bytearray), ("print", _h_print), ("repr", _h_repr), ("hash", _h_hash)):
+    for name, h in (("dict", _h_dict), ("defaultdict", _h_defaultdict), ("chr", _h_chr), ("ord", _h_ord), ("len", _h_len), ("bytes", _h_bytes), ("bytearray", _h_bytearray), ("print", _h_print), ("repr", _h_repr), ("hash", _h_hash)):
         hook.SIMPLE_CALLS.setdefault(name, []).insert(0, h)
     hook.METHOD_HANDLERS.append(_h_method)
 
